@@ -54,6 +54,12 @@ func orderedItems(f *ast.File) []string {
 	})
 	for _, cg := range f.Comments {
 		for _, c := range cg.List {
+			if strings.Contains(c.Text, "\n") {
+				// go/printer defers a comment that contains a line break past the next token when
+				// printing it first would introduce an implicit semicolon (commentBefore): its
+				// place in the printed text is not the restorer's doing
+				continue
+			}
 			items = append(items, it{c.Slash, "c:" + strings.Join(strings.Fields(c.Text), "")})
 		}
 	}
@@ -88,13 +94,13 @@ func c12Check(in c12Input) (key, what string) {
 			if in.Lines {
 				randomDecorate(rnd, f, in.Dens)
 			} else {
-				randomDecorateWith(rnd, f, in.Dens, []string{"/* b */", "\n", "/* multi\nline */", "/*x*/", "\n", "/**/"})
+				// (multi-line block comments are in the other mode: go/printer defers a comment that
+				// contains a line break -- and every comment after it in the same group -- past the
+				// next token when printing it first would introduce an implicit semicolon)
+				randomDecorateWith(rnd, f, in.Dens, []string{"/* b */", "\n", "/*x*/", "\n", "/**/", "/* c */"})
 			}
-			if len(f.Decs.Start) > 0 && f.Decs.Start[0] == "\n" {
+			for firstEmissionIsNewline(f) {
 				f.Decs.Start = f.Decs.Start[1:] // recorded finding first-emission-newline, checked separately
-				for len(f.Decs.Start) > 0 && f.Decs.Start[0] == "\n" {
-					f.Decs.Start = f.Decs.Start[1:]
-				}
 			}
 		}
 		// light edit: reverse the declarations after the imports
